@@ -402,10 +402,13 @@ class MachineInterp(flow.Interp):
             self.viol('C02.e', '%s returns with a requested prong left in the registry' % self.entry_name, where, st,
                       {'requested': self.describe(st, st.get(REQUESTED))})
         # accepted transition vs. what happened
-        cur = None
-        for loc in st.cls:
-            if loc[0] == 'F' and loc[-2:] == ('currentTransition', 'destination') and loc[1].endswith(('processRequest', 'initialEnter')):
-                cur = loc[:-1]
+        # the accumulator of the accepted transition: the object handed to the guard rounds as `current` (whatever it is called and
+        # wherever it lives); when no guard round took place, the local of that name in the processing function, if any
+        cur = st.obs.get('gcur')
+        if cur is None:
+            for loc in st.cls:
+                if loc[0] == 'F' and loc[-2:] == ('currentTransition', 'destination') and loc[1].endswith(('processRequest', 'initialEnter')):
+                    cur = loc[:-1]
         if cur is not None and self.mode in ('guarded', 'initial'):
             d = st.get(cur + ('destination',))
             if st.cconst(d) == 255:
